@@ -145,7 +145,7 @@ loop:
 	for i, c := range content[1:] {
 		switch c {
 		case '\\':
-			escaped = true
+			escaped = !escaped
 
 		case '/':
 			if !escaped {
